@@ -33,7 +33,7 @@ ORIG = [(None, None, True), ("http://example.com", "example.com", True),
         ("http://evil.com", "evil.com", True), ("http://example.com.evil.com", "example.com.evil.com", True),
         ("http://example.com@evil.com", "evil.com", False), ("http://evil.com/example.com", "evil.com", True),
         ("http://example.com:80", "example.com:80", True), ("null", "", True),
-        ("http://evil.com#example.com", "evil.com", True)]
+        ("http://evil.com#example.com", "evil.com", True), ("http://evilexample.com", "evilexample.com", True)]
 
 
 def rfc_accept(key):
@@ -59,7 +59,7 @@ def pre_req(u: int, c: int, k: int, v: int, h: int, o: int, legacy_origin: bool)
     pre=pre_req,
     quick=dict(DEV=2, timeout=150, reach_timeout=60),
     thorough=dict(DEV=3, timeout=1200, reach_timeout=120),
-    nshards=dict(quick=11, thorough=11),
+    nshards=dict(quick=12, thorough=12),
     reach=["accepted_101", "cross_origin_403", "bad_version_426", "missing_key_400"],
     units=["web.RequestHandler._execute", "websocket.WebSocketHandler.get", "websocket.WebSocketHandler.check_origin",
            "websocket.WebSocketHandler.get_websocket_protocol", "websocket.WebSocketProtocol13.accept_connection",
@@ -67,7 +67,7 @@ def pre_req(u: int, c: int, k: int, v: int, h: int, o: int, legacy_origin: bool)
            "websocket.WebSocketProtocol13.compute_accept_value"],
     stubs=["stand-in HTTPConnection (_ws_rig.FakeConn), real Application / HTTPServerRequest / HTTPHeaders; fixed clock",
            "header values from pools by symbolic index (request concrete per path): Upgrade x6, Connection x6, key x4, "
-           "version x7, Host x4 (a request without Host never reaches the handler: HTTPServerRequest raises), Origin x11 (case, port, userinfo, path, fragment, null) sent as Origin or as "
+           "version x7, Host x4 (a request without Host never reaches the handler: HTTPServerRequest raises), Origin x12 (case, port, userinfo, path, fragment, null) sent as Origin or as "
            "Sec-WebSocket-Origin; at most DEV of Upgrade/Connection/key/version/Host deviate from the valid baseline",
            "real hashlib/base64 on the concrete pooled keys: the response accept value is compared with "
            "base64(sha1(key + RFC GUID)) computed by the harness (incl. the RFC 6455 sample key/accept pair)"],
@@ -257,8 +257,8 @@ class _FakeB64:
         return b"B64:" + b
 
 
-C_UPG = ["websocket", "WebSocket", "h2c", None]
-C_CONN = ["Upgrade", "upgrade", "keep-alive", None]
+C_UPG = ["websocket", "WebSocket", "h2c"]
+C_CONN = ["Upgrade", "keep-alive", None]
 C_EXT = [None, "permessage-deflate", "permessage-deflate; client_max_window_bits=10", "x-foo",
          "permessage-deflate, x-foo", "permessage-deflate; bogus=1"]
 
@@ -281,7 +281,7 @@ def pre_client(key: str, accept: str, acc_mode: int, cu: int, cc: int, ce: int, 
 
 @harness(
     pre=pre_client,
-    quick=dict(L=2, timeout=150, reach_timeout=60),
+    quick=dict(L=1, timeout=150, reach_timeout=60),
     thorough=dict(L=3, timeout=900, reach_timeout=120),
     nshards=dict(quick=6, thorough=6),
     reach=["client_accepts", "client_rejects_wrong_accept", "client_rejects_unoffered_extension"],
@@ -408,13 +408,15 @@ def ref_netloc(url):
 
 @harness(
     pre=pre_origin,
-    quick=dict(L=1, LP=0, timeout=100, reach_timeout=60),
-    thorough=dict(L=2, LP=1, timeout=900, reach_timeout=120),
+    quick=dict(L=0, LP=0, timeout=100, reach_timeout=60),
+    thorough=dict(L=1, LP=0, timeout=900, reach_timeout=120),
     nshards=dict(quick=5, thorough=5),
-    reach=["same_origin_accepted", "suffix_attack_rejected"],
+    reach=["same_origin_accepted", "cross_origin_rejected"],
     units=["websocket.WebSocketHandler.check_origin"],
     stubs=["urllib.parse.urlsplit's lru_cache bypassed (urlsplit.__wrapped__) so the Origin stays symbolic",
-           "Origin = scheme (pool) + <= L free printable chars + host (pool, case / port / userinfo variants) + <= L "
+           "quick: pooled components only (L=0); thorough: one free character after the host (urlsplit on symbolic "
+           "text costs ~3 s per path, so thorough is a bounded search)",
+           "Origin = scheme (pool) + <= LP free printable chars + host (pool, case / port / userinfo variants) + <= L "
            "free printable chars; Host header from a pool; reference = RFC 3986 authority extraction"],
     outside=["'[' / ']' in the free characters (urlsplit raises ValueError)", "non-ASCII / control characters"],
 )
@@ -424,7 +426,12 @@ def h_origin_unit(sc: int, oh: int, hh: int, pre_s: str, suf: str):
     if hasattr(saved, "__wrapped__"):
         up.urlsplit = saved.__wrapped__
     try:
-        origin = O_SCHEME[R.pick(sc, len(O_SCHEME))] + pre_s + O_HOST[R.pick(oh, len(O_HOST))] + suf
+        origin = O_SCHEME[R.pick(sc, len(O_SCHEME))]
+        if len(pre_s) > 0:
+            origin = origin + pre_s
+        origin = origin + O_HOST[R.pick(oh, len(O_HOST))]
+        if len(suf) > 0:
+            origin = origin + suf
         host = H_HOST[R.pick(hh, len(H_HOST))]
         headers = httputil.HTTPHeaders()
         headers.add("Host", host)
@@ -437,8 +444,8 @@ def h_origin_unit(sc: int, oh: int, hh: int, pre_s: str, suf: str):
             assert hostport.lower() == host.lower() and hostport != "", \
                 "default check_origin accepted Origin %r for Host %r" % (origin, host)
         else:
-            if len(suf) > 0 and hostport.lower() != host.lower():
-                reached("suffix_attack_rejected")
+            if hostport.lower() != host.lower():
+                reached("cross_origin_rejected")
             assert not (netloc == host and host == host.lower()), \
                 "default check_origin rejected the same-origin Origin %r for Host %r" % (origin, host)
     finally:
